@@ -398,3 +398,9 @@ func VerifSlabIsRoot(s Slab) bool {
 	}
 	return false
 }
+
+// VerifMapDigesterBuilder returns the map's digester builder (seeded for this map).
+func VerifMapDigesterBuilder(m *OrderedMap) DigesterBuilder { return m.digesterBuilder }
+
+// VerifArrayMutableElementIndexCount returns the number of entries of the array's mutableElementIndex.
+func VerifArrayMutableElementIndexCount(a *Array) int { return len(a.mutableElementIndex) }
